@@ -21,6 +21,7 @@
 #include <typeinfo>
 #include <exception>
 #include <sys/mman.h>
+#include <unistd.h>
 #include "hlib.h"
 #define private public
 #define protected public
@@ -232,7 +233,11 @@ static void runFailure(Toks& t, Out& o)
     if (mp != std::string::npos) {
         size_t q = mp + strlen(marker), d0 = q;
         while (q < m.size() && m[q] >= '0' && m[q] <= '9') q++;
-        if (q > d0 && m.compare(q, 6, " at: <") == 0) pos = hx(strtoull(m.substr(d0, q - d0).c_str(), nullptr, 10));
+        // the real marker line is the last thing in the message: "<digits> at: <window>\n\t   ...   ^"
+        size_t tail = m.rfind(">\n\t");
+        bool caret = !m.empty() && m.back() == '^' && tail != std::string::npos && tail > q
+                     && m.find_first_not_of(' ', tail + 3) == m.size() - 1;
+        if (q > d0 && m.compare(q, 6, " at: <") == 0 && caret) pos = hx(strtoull(m.substr(d0, q - d0).c_str(), nullptr, 10));
     }
     o << pos << hbytes(m.data(), m.size());
     o.flush();
@@ -249,5 +254,6 @@ int main()
         else if (fam == "fail") runFailure(t, o);
         else { fprintf(stderr, "harness: bad family %s\n", fam.c_str()); exit(3); }
     }
-    return 0;
+    fflush(stdout);
+    _exit(0);     // skip static destruction (the library's operator delete would consult already destroyed allocators)
 }
